@@ -207,3 +207,18 @@ Example C13_purge_example :
   purge_repaired N (fun h => h) (fun i => i =? 2) 30 [(4, [1]); (4, [2]); (4, [3]); (4, [4]); (2, [1; 2; 3]); (2, [2])]
   = [(4, [1]); (4, [3]); (4, [4]); (2, [1; 3])].
 Proof. vm_compute. reflexivity. Qed.
+
+(* the purge pass over a whole table (C13/Purge.v PurgePass; finding C13-purge-forgets-ids-of-skipped-parts): when the ids are kept
+   in the deleted-series table unless every part was filtered, the pass never makes a dropped id visible - whatever parts are being
+   merged - and never hides a live one *)
+Theorem C13_purge_pass_never_unhides_dropped : forall t id, In id (pt_deleted t) -> ~ In id (visible_ids (purge_pass true t)).
+Proof. exact purge_pass_hides. Qed.
+Theorem C13_purge_pass_keeps_live : forall k t id, ~ In id (pt_deleted t) -> In id (flat_map snd (pt_parts t)) ->
+  In id (visible_ids (purge_pass k t)).
+Proof. exact purge_pass_keeps_live. Qed.
+Print Assumptions C13_purge_pass_never_unhides_dropped.
+Print Assumptions C13_purge_pass_keeps_live.
+Example C13_purge_pass_example :
+  visible_ids (purge_pass true (mkPT [(true, [1; 2; 3]); (false, [2; 4])] [2])) = [1; 3; 4] /\
+  visible_ids (purge_pass true (mkPT [(false, [1; 2; 3]); (false, [2; 4])] [2])) = [1; 3; 4].
+Proof. vm_compute. split; reflexivity. Qed.
